@@ -4,24 +4,35 @@ import TTV.Lemmas.Reactor
 /-! # C14 — Deferred-returning tests under `AsynchronousDeferredRunTest`
 
 Theorems about the model `TTV.AsyncRun` (`Model/Reactor.lean`, `Model/AsyncRun.lean`): the runner's staging and
-bookkeeping logic on the virtual-time reactor, for **every** program (any stages, side effects, cleanups, delays),
-every timeout, every set of interrupt instants, both runner variants, both logging options.
+bookkeeping logic on the virtual-time reactor, for **every** program (any stages, side effects, delays; cleanups
+nested to any depth - a cleanup may register cleanups; `KeyboardInterrupt`/`SystemExit` raised by or failing the
+Deferred of any stage), every timeout, every set of interrupt instants, both runner variants, both logging options.
+The reactor runs in *iterations* (`ReactorBase.runUntilCurrent`): a call scheduled during an iteration - even with
+delay 0 - waits for the next one; the result of `Spinner.run` is determined when `reactor.run()` returns, before the
+shake-out iterations of `Spinner._clean`.
 This property is *partial* with respect to the Twisted runtime: Deferred chaining, the log publisher and
 `DebugInfo`/GC are modelled (see `Model/AsyncRun.lean`), and covered only by the correspondence check.
 
 * `holds_model`              : the executable spec `Spec.C14.holds` is true of the model's trace (headline)
-* `C14_bracket`              : exactly one outcome between `startTest` and `stopTest`, `run()` returns
-* `C14_sequential`           : the stages that ran are a prefix of the path (setUp, [test, tearDown], cleanups LIFO);
-                               the next stage starts only after its predecessor's Deferred fired
+* `C14_bracket`              : exactly one outcome between `startTest` and `stopTest`
+* `C14_sequential`           : the stages that ran are a prefix of the path (setUp, [test, tearDown], cleanups LIFO,
+                               those registered by a cleanup right after it); the next stage starts only after its
+                               predecessor's Deferred fired
 * `C14_success_iff`          : success ⇔ in time ∧ every stage clean ∧ no expectation failed ∧ no unflushed logged error
                                ∧ no dropped failed Deferred ∧ nothing left scheduled
-* `C14_timeout_interrupt`    : not in time ⇒ error; `result.stop()` exactly for an interrupt before the timeout
+* `C14_timeout_interrupt`    : not in time ⇒ error; `result.stop()` only for an interrupt before the timeout, and
+                               always when one came while the chain was not over
+* `C14_unclaimed`            : `run()` re-raises only `KeyboardInterrupt`/`SystemExit`, after reporting an error; always
+                               when setUp / the test / tearDown raised one; only if a stage that ran raised one
 * `C14_clean_after`, `C14_observers_restored` : nothing pending, the log observers are the original ones (in order)
-* `C14_in_time_iff_recorded` : the declarative `inTime` ⇔ `Spinner.run` returned the chain's verdict
+* `C14_in_time_iff_recorded` : the declarative `inTime` ⇔ `Spinner.run` returned the chain's verdict (determined
+                               before `_clean`'s iterations)
 * `C14_loop_ends_by_crash`   : the reactor loop ends by a crash within the model's fuel
 
-Proof structure: `Reach` (what a chain step can do) · `Inv1` (queue/clock/spinner invariant of the loop) · `pot`
-(termination) · `Run`/`Susp`/`Fin` (chain invariant through suspensions) · `final_sem` (meaning of the final state). -/
+Proof structure: `Reach` (what a chain step can do) · `Inv1` (queue/clock/spinner invariant of the loop, incl. the
+iteration in which each queued call was scheduled) · `pot` (termination) · `Run`/`Susp`/`Fin` (chain invariant through
+suspensions) · `SpinEnd`/`IterEnd` (the states when `reactor.run()` returns and after `_clean`'s iterations) ·
+`final_sem` (meaning of the final state). -/
 namespace TTV.Props.C14
 open TTV.Reactor TTV.AsyncRun TTV.Spec.C14
 
